@@ -2,6 +2,7 @@
 SPECIFICATION Spec
 CONSTANTS
   Modes = {"tcp", "udp", "dec"}
+  LogLevels = {"info", "debug"}
   MaxPkts = 3
   ValidateKnown = TRUE
   TcpDests <- McTcpDests
